@@ -175,6 +175,33 @@ fn conv_route<const A: dashu_int::Word, const T: dashu_int::Word>(neg: bool, sig
     Ok(())
 }
 
+/// exact products reached through different operations (x*x, sqr, powi(2); x*x*x, cubic, powi(3); x*y in both orders
+/// and in place) are one value: ==, cmp Equal, normalised. The interesting bases are those with a repeated prime
+/// factor (4, 8, 9, 16, 36), where a product of normalised significands can be divisible by the base.
+fn pow_route<const B: dashu_int::Word>(neg: bool, s1: u64, s2: u64, e: i64, unlimited: bool) -> R {
+    type F<const B: dashu_int::Word> = FBig<mode::Zero, B>;
+    let mk = |s: u64, neg: bool, e: i64| -> F<B> {
+        let f = F::<B>::from_parts(IBig::from(s) * if neg { IBig::NEG_ONE } else { IBig::ONE }, e as isize);
+        // room for every product below: nothing is rounded
+        f.with_precision(if unlimited { 0 } else { 60 }).value()
+    };
+    let (x, y) = (mk(s1, neg, e), mk(s2, false, -e / 2));
+    let (qx, qy) = (q_of_repr(x.repr()), q_of_repr(y.repr()));
+    let group = |vals: &[(&str, F<B>)], want: &BigRational| -> R {
+        for (name, v) in vals {
+            fnorm(v, name)?;
+            ensure!(q_of_repr(v.repr()) == *want, "route_value", "{} of {:?} has the value {:?}", name, x.repr(), v.repr());
+            ensure!(*v == vals[0].1 && vals[0].1 == *v && v.cmp(&vals[0].1) == Ordering::Equal && v.partial_cmp(&vals[0].1) == Some(Ordering::Equal), "eq", "{} = {:?} and {} = {:?} are the same value but compare unequal (base {})", name, v.repr(), vals[0].0, vals[0].1.repr(), B);
+        }
+        Ok(())
+    };
+    group(&[("x * x", &x * &x), ("sqr", x.sqr()), ("powi(2)", x.powi(IBig::from(2))), ("context sqr", x.context().sqr(x.repr()).value())], &(&qx * &qx))?;
+    group(&[("x * x * x", &x * &x * &x), ("cubic", x.cubic()), ("powi(3)", x.powi(IBig::from(3)))], &(&qx * &qx * &qx))?;
+    let mut t = x.clone();
+    t *= &y;
+    group(&[("x * y", &x * &y), ("y * x", y.clone() * x.clone()), ("x *= y", t)], &(&qx * &qy))
+}
+
 fn sgn(neg: bool) -> Sign {
     if neg {
         Sign::Negative
@@ -517,6 +544,17 @@ fn case(m: &mut Mon, r: &mut Rng, _idx: u64) {
             let pair = r.below(6);
             let d2 = || format!("float_conv_routes pair={} sig={}{} exp={}", pair, if cneg { "-" } else { "" }, show_nat(&csig), ce);
             let h2 = gen::hash_limbs((ce as u64) << 8 ^ pair << 50, &limbs_of_nat(&csig));
+            let (ps1, ps2, pe, pb, pu) = (1 + r.below(1500), 1 + r.below(300), r.range(-40, 40), r.below(8), r.bool());
+            m.check("float_pow_routes", &format!("b#{}", pb), Some(ps1 ^ ps2 << 16 ^ (pe as u64) << 32 ^ pb << 48 ^ (cneg as u64) << 52 ^ (pu as u64) << 53), &|| format!("float_pow_routes base#{} (of 4, 8, 9, 16, 36, 10, 2, 3) x={}{}*B^{} y={}*B^{} unlimited={}", pb, if cneg { "-" } else { "" }, ps1, pe, ps2, -pe / 2, pu), || match pb {
+                0 => pow_route::<4>(cneg, ps1, ps2, pe, pu),
+                1 => pow_route::<8>(cneg, ps1, ps2, pe, pu),
+                2 => pow_route::<9>(cneg, ps1, ps2, pe, pu),
+                3 => pow_route::<16>(cneg, ps1, ps2, pe, pu),
+                4 => pow_route::<36>(cneg, ps1, ps2, pe, pu),
+                5 => pow_route::<10>(cneg, ps1, ps2, pe, pu),
+                6 => pow_route::<2>(cneg, ps1, ps2, pe, pu),
+                _ => pow_route::<3>(cneg, ps1, ps2, pe, pu),
+            });
             m.check("float_conv_routes", "conv", Some(h2), &d2, || match pair {
                 0 => conv_route::<16, 2>(cneg, &csig, ce, 4),
                 1 => conv_route::<8, 2>(cneg, &csig, ce, 3),
